@@ -283,6 +283,7 @@ def step (s : St) (ws : List String) : St × String :=
           let v4 := connectAll s3.env v3
           ({ s3 with v := v4 }, "refreshed=1 " ++ snapshotE v4)
   | ["e2ebound"] => (s, "ok")
+  | ["e2eorder", _] => (s, "inorder")   -- what "the last status wins" needs: frames reach the debouncer in wire order
   | ["evdeb", n, b] =>
     let evs := parseBatch b
     match evs with
